@@ -127,6 +127,12 @@ type world struct {
 }
 
 func (w *world) stamp() int64 { return w.clk.Add(1) }
+
+func (w *world) sigsSnapshot() []sig {
+	w.mu.Lock()
+	defer w.mu.Unlock()
+	return append([]sig{}, w.sigs...)
+}
 func (w *world) step(s string) {
 	w.steps = append(w.steps, s)
 	rec.Progress()
@@ -376,7 +382,7 @@ func TestCheck(t *testing.T) {
 	rec = mon.Open("C09")
 	defer rec.Close()
 	rec.Note("rule", "a case is one timeline against the real limiter in a synctest bubble: (lockstep) seeded Add/burst/sleep sequences with sleeps to just before, exactly at and just after the reference window end, compared signal-for-signal with the statement's automaton; (racing) bursts from 2-8 goroutines at shared virtual instants with a prompt or slow consumer, ended by Close or cancel at a seeded instant, judged by the conservation and bounded-progress invariants; (directed) the run loop parked at loop.top / input.recv / timer.recv while Add / Close / cancel are issued. Non-trivial = at least two Adds or a placed operation; distinct = distinct (config, step list).")
-	rec.Note("require", []string{"park.loop.top", "park.input.recv", "park.timer.recv", "lockstep.signals_matched", "lockstep.window_end_exact", "lockstep.cap_fired", "racing.adds", "shutdown.close", "shutdown.cancel", "directed.close_while_parked"})
+	rec.Note("require", []string{"park.loop.top", "park.input.recv", "park.timer.recv", "lockstep.signals_matched", "lockstep.window_end_exact", "lockstep.cap_fired", "racing.adds", "lockstep.burst_owed_signal", "shutdown.close", "shutdown.cancel", "directed.close_while_parked"})
 	ps := plans()
 	rec.Planned(len(ps))
 	for idx, pl := range ps {
@@ -437,7 +443,57 @@ func runLockstep(t *testing.T, idx int, rng *mon.RNG) {
 		}
 		nsteps := rng.Range(3, 30)
 		for s := 0; s < nsteps && !w.viol; s++ {
-			switch k := rng.Intn(10); {
+			switch k := rng.Intn(11); {
+			case k == 10:
+				// un-waited burst: n Adds back to back from one goroutine (or from n goroutines), the run
+				// loop handles them as it pleases. Whatever the interleaving, if the burst starts from
+				// idle, or the Adds pending before it plus the burst reach the cap, a signal is owed at
+				// this very instant. Afterwards the reference is re-synchronised at an idle point.
+				r.advance(time.Now())
+				n := rng.Range(2, 6)
+				owed := r.idle || (c.MaxPending > 0 && r.pending+n >= c.MaxPending)
+				before := len(w.sigsSnapshot())
+				parallel := rng.Bool()
+				w.step(fmt.Sprintf("burst x%d parallel=%v", n, parallel))
+				if parallel {
+					var bw sync.WaitGroup
+					for i := 0; i < n; i++ {
+						bw.Add(1)
+						go func() { defer bw.Done(); w.add() }()
+					}
+					bw.Wait()
+				} else {
+					for i := 0; i < n; i++ {
+						w.add()
+					}
+				}
+				synctest.Wait()
+				got := w.sigsSnapshot()
+				if owed {
+					rec.Count("lockstep.burst_owed_signal", 1)
+					if len(got) == before {
+						why := "the limiter was idle"
+						if !r.idle {
+							why = fmt.Sprintf("%d Adds were pending and the burst of %d reaches the cap of %d", r.pending, n, c.MaxPending)
+						}
+						w.violation("lockstep/burst-no-immediate-signal", "a burst of "+fmt.Sprint(n)+" un-waited Adds produced no signal at its own instant although "+why)
+						break
+					}
+				}
+				if len(got)-before > n {
+					w.violation("signals-exceed-adds/burst", fmt.Sprintf("a burst of %d Adds produced %d signals", n, len(got)-before))
+					break
+				}
+				// let the window(s) run out, then the limiter is idle again whatever the interleaving was
+				time.Sleep(time.Duration(n+2)*c.Max + 1)
+				synctest.Wait()
+				w.invariants(true)
+				got = w.sigsSnapshot()
+				r.idle, r.pending = true, 0
+				r.signals = r.signals[:0]
+				for _, g := range got {
+					r.signals = append(r.signals, g.t)
+				}
 			case k < 5:
 				n := 1
 				if rng.Chance(1, 3) {
